@@ -1,4 +1,5 @@
 import AmrK.MenuR
+import AmrK.MenuClassProofs
 import AmrK.Menu
 import AmrK.ExtremaProofs
 /-! # C18 — header-only tools report what the full reader holds -/
@@ -32,5 +33,21 @@ example :
 theorem pinned_drops_a_field : ¬ MenuProbe.Covers 3 := MenuProbe.covers_counterexample
 
 example : MenuR.shown 5 = [some 0, some 3, some 1, some 4, some 2, none] := by decide
+
+/-- **the listing shows every field exactly once** (`MenuClass.variables`: the first-match loop of `variables_finder` over
+    the database in dictionary order, its `else` branch, the case-insensitive sort; the regular-expression subset of the
+    database matched by `MenuClass.search`; all run by the driver on the database of the module under test and compared
+    with the printed listing).  Whatever the database holds: nothing is listed twice; every field of the header is shown,
+    under its own name or under the key of a database entry whose pattern finds it; every listed name is a field or such a
+    key. -/
+theorem listing_covers_once (t : List MenuClass.Entry) (fields : List String) (L : List String) (t' : List MenuClass.Entry)
+    (h : MenuClass.variables t fields = some (L, t')) :
+    L.Nodup ∧ (∀ f ∈ fields, f ∈ L ∨ ∃ key pat, MenuClass.search pat f = some true ∧ key ∈ L) ∧
+    (∀ x ∈ L, x ∈ fields ∨ ∃ f ∈ fields, ∃ pat, MenuClass.search pat f = some true) :=
+  MenuClass.variables_spec t fields L t' h
+
+example : (MenuClass.variables [("temp", "^temp$", "[K]"), ("Y", "^Y\\(.+\\)$", "[-]"), ("velocity", "^\\w+_velocity$", "[m/s]")]
+      ["Y", "x_velocity", "Y(H2)", "Zeta", "temp", "alpha", "y_velocity"]).map (·.1)
+    = some ["alpha", "temp", "velocity", "Y", "Y(H2)", "Zeta"] := by decide +kernel
 
 end C18
